@@ -1,7 +1,489 @@
-(* IntegrationAuth — end-to-end theorems about the integration model of sso-auth (AuthAll.v).
-   This file contains only statements; each is closed by [exact <lemma>]. *)
+(* IntegrationAuth — end-to-end theorems about the INTEGRATION model of sso-auth
+   (theories/AuthAll.v: serve : deployment -> request -> oracles -> provider answers -> time ->
+   response, the whole request path of every endpoint), obtained by composing the per-property
+   theorems C07, C08, C09, C10, C18, C19, C20 through adapters that are proved faithful.
+   This file contains only statements; each is closed by [exact <lemma>].
+   [lower] is strings.ToLower (any function). Time is nanoseconds (now_ns); sessions compare
+   against whole seconds (now_ns / ns). *)
 From V Require Import Base AuthAll AuthAll_proofs Gen_AuthBackRoutes.
 
-Theorem INT_routes_from_source : translate_all auth_routes_src = Some all_routes.
-Proof. exact source_table_is_all_routes. Qed.
+(* The route table of the model IS the table in the Go source of newMux (all eight routes: path,
+   methods, middleware chain IN ORDER, handler; nothing else), and route paths are distinct. *)
+Theorem INT_routes_from_source :
+  translate_all auth_routes_src = Some all_routes /\ NoDup (map rt_path all_routes).
+Proof. exact (conj source_table_is_all_routes route_paths_distinct). Qed.
 Print Assumptions INT_routes_from_source.
+
+(* Host check and slug-prefix routing (mux.go): a response went through setHeaders of an authenticator
+   exactly when the request names this deployment's host, is not /ping, has a clean path and a
+   registered provider slug as path prefix; everything else — another Host (421), an unknown
+   path (404), gorilla's clean-path 301, /ping, /robots.txt, /static/ — has no effect at all: no
+   handler, no cookie, no IdP call, no redirect to a caller-supplied place, no data in the body.
+   Inside an authenticator an unknown route is 404 (or the clean-path 301), equally without effect. *)
+Theorem INT_routing :
+  forall (lower : str -> str) (d : deployment) (q : request) (o : oracles) (an : answers) (now_ns : Z),
+  let resp := serve lower d q o an now_ns in
+  (r_secured resp = true <-> (exists (slug : str) (k : F.pkind) (rest : str), routed d q slug k rest)) /\
+  (r_secured resp = false -> no_effect resp) /\
+  (q_path q <> p_ping -> q_host q <> d_host d -> r_status resp = 421 /\ no_effect resp) /\
+  (forall (slug : str) (k : F.pkind) (rest : str),
+   routed d q slug k rest ->
+   ~ In rest (map rt_path all_routes) -> no_effect resp /\ (r_status resp = 301 \/ r_status resp = 404)).
+Proof. exact routing_end_to_end. Qed.
+Print Assumptions INT_routing.
+
+(* A response — of ANY request to ANY host / path / method, with any cookies, provider answers,
+   oracle behaviour and time — whose Location carries code= :
+   the route is GET /<slug>/sign_in of a registered provider behind the gates of newMux in their
+   order (C08's client id, C07's redirect and signature gates, now CONCRETE functions of the
+   request bytes); redirect_uri's host is in a root domain under every RFC 3986 reading (C07), and
+   so is the host of the Location text actually written; the signature is the MAC under the client
+   secret of redirect_uri ++ decimal(ts), at most 5 minutes old (and issued by the proxy, under the
+   ideal-MAC hypothesis); the cookie opens under the COOKIE key to a session within its lifetime
+   whose e-mail passes the rule and which the IdP confirmed in THIS request (refresh answered 200
+   with a token document, or the access token validated) (C09); the code seals exactly that session
+   under the AUTH-CODE key: presented at /redeem with the client credentials within its deadlines
+   it yields that session's e-mail and tokens (C08).
+   Guards, all explicit: the AEAD oracle o_open is consulted as is (what a string opens to is the
+   driver's / the cipher's business: symbolic crypto); byte_ok / scheme_ok only for the clause
+   about the written Location; issued_only only for the provenance clause. *)
+Theorem INT_code_end_to_end :
+  forall (lower : str -> str) (d : deployment) (q : request) (o : oracles) (an : answers) 
+    (now_ns : Z) (src : str) (s : F.session),
+  r_loc (serve lower d q o an now_ns) = LCode src s ->
+  let resp := serve lower d q o an now_ns in
+  let r := inner q p_sign_in in
+  let now_s := (now_ns / ns)%Z in
+  exists (slug : str) (k : F.pkind),
+    routed d q slug k p_sign_in /\
+    sign_in_gates_pass d o now_ns q /\
+    src = redirect_value r /\
+    B.form_get k_state (the_form r) <> [] /\
+    (forall (sch ui : option str) (h : str) (port : option str) (rest : str),
+     Url.rfc_split src sch ui h port rest -> G.in_domain (Url.rfc_hostname h) (d_proxy_domains d)) /\
+    (forallb Url.byte_ok src = true ->
+     d_scheme d = [] \/ Url.scheme_ok (d_scheme d) ->
+     exists u : Url.url,
+       Url.go_parse src = Some u /\
+       (forall (tail : str) (s' ui' : option str) (h' : str) (p' : option str) (r' : str),
+        Url.rest_ok tail ->
+        Url.rfc_split (Url.authority_string (d_scheme d) u ++ tail) s' ui' h' p' r' ->
+        G.in_domain (Url.rfc_hostname h') (d_proxy_domains d))) /\
+    (exists t : Z,
+       G.parse_int (ts_value r) = Some t /\
+       sigval_of o (sig_value r) = G.SigTag (G.Mac (d_client_secret d) (src ++ G.dec t)) /\
+       (now_ns - t * ns <= G.ttl_ns)%Z) /\
+    (forall issued : list (str * Z),
+     G.issued_only (d_client_secret d) issued (sigval_of o (sig_value r)) ->
+     G.signed_fresh now_ns issued src (ts_value r)) /\
+    (exists (c : str) (s0 : F.session),
+       lookup slug (q_sess q) = Some c /\
+       o_open o c = Some (d_cookie_key d, to_back s0) /\
+       (now_s <= F.s_lifetime s0)%Z /\
+       F.rule_passes lower (fcfg d) (F.s_email s0) = true /\
+       F.s_email s = F.s_email s0 /\
+       F.s_lifetime s = F.s_lifetime s0 /\
+       F.s_rtok s = F.s_rtok s0 /\
+       r_sess_ops resp = [F.OpSet s] /\
+       (exists calls : list F.idp_call,
+          r_calls resp = map CIdp calls /\
+          (FP.refreshed_ok now_s s0 (an_refresh an) s calls \/
+           FP.validated_ok k now_s s0 (an_validate an) s calls))) /\
+    r_status resp = 302 /\
+    (forall (q' : request) (o' : oracles) (an' : answers) (now_ns' : Z) (slug' : str) (k' : F.pkind) (c : str),
+     routed d q' slug' k' B.p_redeem ->
+     redeem_request_ok d q' ->
+     B.presented_code (inner q' B.p_redeem) = c ->
+     o_open o' c = Some (d_code_key d, to_back s) ->
+     (now_ns' / ns <= F.s_refresh s)%Z ->
+     (now_ns' / ns <= F.s_lifetime s)%Z ->
+     let resp' := serve lower d q' o' an' now_ns' in
+     r_status resp' = 200 /\
+     r_body resp' = BJson (session_json (to_back s) (now_ns' / ns)) /\ r_calls resp' = []).
+Proof. exact code_end_to_end. Qed.
+Print Assumptions INT_code_end_to_end.
+
+(* A session cookie is SET (any request whatsoever) only
+   - by GET /<slug>/callback, when the state parameter base64-decodes (concrete decoder) to
+     nonce ":" redirect with a colon-free nonce EQUAL to the browser's CSRF cookie, the redirect
+     re-validated by the concrete validRedirectURI (host in a root domain under every RFC reading),
+     no error parameter, and the provider's Redeem (IdToken's model, C10) returned a session whose
+     e-mail the IdP vouched for: token endpoint 200 + JSON carrying the tokens, e-mail = the verified
+     e-mail of the id_token payload (Google) / of the userinfo answer (Okta); that e-mail passes the
+     rule; lifetime = now + SESSION_LIFETIME; the CSRF cookie is cleared; 302 to that redirect; or
+   - by /<slug>/sign_in as a re-save of the session the browser presented (same owner, refresh
+     token and lifetime; the very same session unless a refresh was due). *)
+Theorem INT_login_end_to_end :
+  forall (lower : str -> str) (d : deployment) (q : request) (o : oracles) (an : answers) 
+    (now_ns : Z) (s : F.session),
+  let resp := serve lower d q o an now_ns in
+  In (F.OpSet s) (r_sess_ops resp) ->
+  exists (slug : str) (k : F.pkind),
+    routed d q slug k p_callback /\
+    (let r := inner q p_callback in
+     let code := B.form_get B.k_code (the_form r) in
+     B.rq_method r = B.m_get /\
+     (exists (nonce redirect : list N) (ts : T.session),
+        S.b64_decode (B.form_get k_state (the_form r)) = Some (nonce ++ F.colon :: redirect) /\
+        ~ In F.colon nonce /\
+        lookup slug (q_csrf q) = Some nonce /\
+        G.valid_redirect_uri redirect (root_domains d) = true /\
+        (forall (sch ui : option str) (h : str) (port : option str) (rest : str),
+         Url.rfc_split redirect sch ui h port rest -> G.in_domain (Url.rfc_hostname h) (d_proxy_domains d)) /\
+        B.form_get k_error (the_form r) = [] /\
+        T.redeem true (tprov k) (an_payload an) code (an_tok an) (an_ui an) = T.Session ts /\
+        idp_vouched k an code ts /\
+        F.rule_passes lower (fcfg d) (T.s_email ts) = true /\
+        s =
+        F.redeemed_session (fcfg d) (now_ns / ns) (T.s_email ts) (T.s_access ts) (T.s_refresh ts)
+          (T.s_expires_in ts) /\
+        r_loc resp = LVerbatim redirect /\
+        r_status resp = 302 /\
+        r_sess_ops resp = [F.OpSet s] /\
+        r_csrf_ops resp = [{| F.sc_value := []; F.sc_expired := true |}] /\
+        r_calls resp = [CIdp (F.CallRedeem code)])) \/
+    routed d q slug k p_sign_in /\
+    (exists (c : str) (s0 : F.session),
+       lookup slug (q_sess q) = Some c /\
+       o_open o c = Some (d_cookie_key d, to_back s0) /\
+       (now_ns / ns <= F.s_lifetime s0)%Z /\
+       F.s_email s = F.s_email s0 /\
+       F.s_rtok s = F.s_rtok s0 /\
+       F.s_lifetime s = F.s_lifetime s0 /\ ((now_ns / ns <= F.s_refresh s0)%Z -> s = s0)).
+Proof. exact login_end_to_end. Qed.
+Print Assumptions INT_login_end_to_end.
+
+(* Back channel, headers, bodies — for every request:
+   (a) a back-channel handler (Redeem / Refresh / GetProfile / ValidateToken) runs only on its own
+       route with the allowed method for a caller who presented the configured client id and
+       secret (C08), which then occur among the values the caller sent; a JSON document in a body
+       comes only from such a handler; without the credentials: 405 / 500 (bare mux, unparsable
+       form) / 401, no IdP call, no cookie effect, an error body; /redeem answers 200 only for a
+       string that opens under the auth-code key to a session within both deadlines and then
+       echoes exactly it;
+   (b) every response from inside an authenticator carries every header of the generated security
+       table with exactly the table's value, whatever the handler did (C18);
+   (c) a response >= 400 from inside an authenticator has one of five body kinds: the error.html
+       page, the JSON error document (both proved inert for every message text:
+       INT_error_bodies_inert), http.Error's text/plain, an empty body, or the sign-out page
+       with the constant error message. *)
+Theorem INT_backchannel :
+  forall (lower : str -> str) (d : deployment) (q : request) (o : oracles) (an : answers) (now_ns : Z),
+  let resp := serve lower d q o an now_ns in
+  (forall h : B.handler,
+   r_ran resp = Some (HBack h) ->
+   exists (slug : str) (k : F.pkind),
+     routed d q slug k (rt_path (rt_back h)) /\
+     (let r := inner q (rt_path (rt_back h)) in
+      mem_str (B.rq_method r) (rt_methods (rt_back h)) = true /\
+      B.presented_id r = d_client_id d /\
+      B.presented_secret r = d_client_secret d /\
+      (d_client_id d <> [] ->
+       d_client_secret d <> [] ->
+       In (d_client_id d) (B.id_values r) /\ In (d_client_secret d) (B.secret_values r)))) /\
+  (forall b : B.body, r_body resp = BJson b -> exists h : B.handler, r_ran resp = Some (HBack h)) /\
+  (forall (slug : str) (k : F.pkind) (h : B.handler),
+   routed d q slug k (rt_path (rt_back h)) ->
+   r_ran resp = None ->
+   r_calls resp = [] /\
+   r_sess_ops resp = [] /\
+   r_body resp = err_body (inner q (rt_path (rt_back h))) (r_status resp) /\
+   (r_status resp = 405 \/
+    r_status resp = 500 /\ d_pre d = false \/
+    r_status resp = 401 /\
+    (B.presented_id (inner q (rt_path (rt_back h))) <> d_client_id d \/
+     B.presented_secret (inner q (rt_path (rt_back h))) <> d_client_secret d))) /\
+  (forall (slug : str) (k : F.pkind),
+   routed d q slug k B.p_redeem ->
+   r_status resp = 200 ->
+   exists s : B.session,
+     o_open o (B.presented_code (inner q B.p_redeem)) = Some (d_code_key d, s) /\
+     (now_ns / ns <= B.s_refresh_dl s)%Z /\
+     (now_ns / ns <= B.s_lifetime_dl s)%Z /\
+     r_body resp = BJson (session_json s (now_ns / ns)) /\ r_calls resp = []) /\
+  (forall (slug : str) (k : F.pkind) (rest : str),
+   routed d q slug k rest ->
+   forall key v : str, H.tbl_lookup key HP.AT = Some v -> H.hget key (headers_of resp) = [H.VStr v]) /\
+  (r_secured resp = true ->
+   400 <= r_status resp ->
+   r_body resp = BErrPage (r_status resp) \/
+   r_body resp = BErrJson (r_status resp) \/
+   r_body resp = BPlain \/
+   r_body resp = BEmpty \/ (exists e u sg t : str, r_body resp = BSignOutPage e u sg t true)).
+Proof. exact backchannel_end_to_end. Qed.
+Print Assumptions INT_backchannel.
+
+Theorem INT_security_headers :
+  forall (r : response) (k v : str),
+  r_secured r = true -> H.tbl_lookup k HP.AT = Some v -> H.hget k (headers_of r) = [H.VStr v].
+Proof. exact security_headers_int. Qed.
+Print Assumptions INT_security_headers.
+
+(* C20 for the two error bodies of ErrorResponse, for EVERY title and message text: the rendered
+   error.html pages of one status code all have the same tag skeleton and end in the data state;
+   the JSON document is one well-formed object {"error": <JSON string>}. *)
+Theorem INT_error_bodies_inert :
+  (forall (code : N) (t1 m1 t2 m2 : str),
+   match
+     Html.render_page Gen_Templates.auth_templates Html_pages_proofs.n_error (error_page_data code t1 m1)
+   with
+   | Some r1 =>
+       match
+         Html.render_page Gen_Templates.auth_templates Html_pages_proofs.n_error (error_page_data code t2 m2)
+       with
+       | Some r2 =>
+           Html.skeleton r1 = Html.skeleton r2 /\
+           Html.final_state r1 = Html.SData /\ Html.final_state r2 = Html.SData
+       | None => False
+       end
+   | None =>
+       match
+         Html.render_page Gen_Templates.auth_templates Html_pages_proofs.n_error (error_page_data code t2 m2)
+       with
+       | Some _ => False
+       | None => True
+       end
+   end) /\ (forall msg : str, Json.json_error_doc_ok (Json.auth_error_json msg) = true).
+Proof. exact error_bodies_inert. Qed.
+Print Assumptions INT_error_bodies_inert.
+
+(* C19 through the real gate order, for every request: a token reaches the IdP's revoke endpoint
+   only from POST /<slug>/sign_out behind both concrete gates, and it is the presented session's
+   own token; the cookie is cleared only on such a POST together with the redirect back, and for a
+   loadable session only after the IdP confirmed the revocation (failure: 500 page, cookie kept);
+   GET is passive; without valid gates nothing happens; the redirect target is the validated,
+   signed, fresh URI whose host is in a root domain under every RFC reading. *)
+Theorem INT_signout :
+  forall (lower : str -> str) (d : deployment) (q : request) (o : oracles) (an : answers) (now_ns : Z),
+  let resp := serve lower d q o an now_ns in
+  (forall tok : str,
+   In (CRevoke tok) (r_calls resp) -> exists (slug : str) (k : F.pkind), routed d q slug k p_sign_out) /\
+  (forall (slug : str) (k : F.pkind),
+   routed d q slug k p_sign_out ->
+   let r := inner q p_sign_out in
+   let ack := acookie_of (cookie_of d o (lookup slug (q_sess q))) in
+   let uri := redirect_value r in
+   (has_clear (r_sess_ops resp) ->
+    B.rq_method r = B.m_post /\
+    sign_out_gates_pass d o now_ns q /\
+    r_loc resp = LVerbatim uri /\
+    r_status resp = 302 /\
+    (ack = S.ACJunk /\ r_calls resp = [] \/
+     (exists s : S.asession,
+        ack = S.ACSealed s /\
+        r_calls resp = [CRevoke (S.revoke_token (sprov k) s)] /\ S.revoke_ok (sprov k) (an_revoke an) = true))) /\
+   (forall tok : str,
+    In (CRevoke tok) (r_calls resp) ->
+    exists s : S.asession,
+      ack = S.ACSealed s /\
+      tok = S.revoke_token (sprov k) s /\ B.rq_method r = B.m_post /\ sign_out_gates_pass d o now_ns q) /\
+   (B.rq_method r = B.m_get -> r_sess_ops resp = [] /\ r_calls resp = []) /\
+   (forall s : S.asession,
+    ack = S.ACSealed s ->
+    B.rq_method r = B.m_post ->
+    sign_out_gates_pass d o now_ns q ->
+    r_calls resp = [CRevoke (S.revoke_token (sprov k) s)] /\
+    (S.revoke_ok (sprov k) (an_revoke an) = false ->
+     r_status resp = 500 /\ r_sess_ops resp = [] /\ r_loc resp = LNone) /\
+    (S.revoke_ok (sprov k) (an_revoke an) = true -> r_loc resp = LVerbatim uri /\ r_sess_ops resp = [F.OpClear])) /\
+   (~ sign_out_gates_pass d o now_ns q ->
+    r_sess_ops resp = [] /\ r_calls resp = [] /\ r_loc resp = LNone /\ r_ran resp = None) /\
+   (forall src : str,
+    r_loc resp = LVerbatim src ->
+    src = uri /\
+    sign_out_gates_pass d o now_ns q /\
+    (forall (sch ui : option str) (h : str) (port : option str) (rest : str),
+     Url.rfc_split src sch ui h port rest -> G.in_domain (Url.rfc_hostname h) (d_proxy_domains d)) /\
+    (exists t : Z,
+       G.parse_int (ts_value r) = Some t /\
+       sigval_of o (sig_value r) = G.SigTag (G.Mac (d_client_secret d) (src ++ G.dec t)) /\
+       (now_ns - t * ns <= G.ttl_ns)%Z))).
+Proof. exact signout_end_to_end. Qed.
+Print Assumptions INT_signout.
+
+(* A login is started at the identity provider only by GET /<slug>/start, for an outer and a nested
+   URI that both pass the concrete validRedirectURI, the nested one signed and fresh; the state
+   handed to the IdP is nonce ":" outer, and that nonce is the CSRF cookie this response sets. *)
+Theorem INT_start :
+  forall (lower : str -> str) (d : deployment) (q : request) (o : oracles) (an : answers) 
+    (now_ns : Z) (st : str),
+  let resp := serve lower d q o an now_ns in
+  r_loc resp = LIdP st ->
+  exists (slug : str) (k : F.pkind),
+    routed d q slug k p_start /\
+    (let r := inner q p_start in
+     let raw := B.form_get k_redirect_uri (B.url_query r) in
+     B.rq_method r = B.m_get /\
+     (exists a b nraw nsig nts : str,
+        o_parse_string o raw = Some a /\
+        o_nested o raw = (nraw, nsig, nts) /\
+        o_parse_string o nraw = Some b /\
+        G.valid_redirect_uri a (root_domains d) = true /\
+        G.valid_redirect_uri b (root_domains d) = true /\
+        (forall (sch ui : option str) (h : str) (port : option str) (rest : str),
+         Url.rfc_split a sch ui h port rest -> G.in_domain (Url.rfc_hostname h) (d_proxy_domains d)) /\
+        (forall (sch ui : option str) (h : str) (port : option str) (rest : str),
+         Url.rfc_split b sch ui h port rest -> G.in_domain (Url.rfc_hostname h) (d_proxy_domains d)) /\
+        (exists t : Z,
+           G.parse_int nts = Some t /\
+           sigval_of o nsig = G.SigTag (G.Mac (d_client_secret d) (b ++ G.dec t)) /\
+           (now_ns - t * ns <= G.ttl_ns)%Z) /\
+        st = an_nonce an ++ F.colon :: a /\
+        r_csrf_ops resp = [{| F.sc_value := an_nonce an; F.sc_expired := false |}] /\
+        r_status resp = 302 /\ r_sess_ops resp = [] /\ r_calls resp = [])).
+Proof. exact start_end_to_end. Qed.
+Print Assumptions INT_start.
+
+(* Every redirect to a caller-supplied URI — verbatim (/sign_out, /callback) or with a code
+   (/sign_in) — at any endpoint, for any request: that URI passed the concrete validRedirectURI,
+   so its host, under every RFC 3986 reading, is in a configured root domain. *)
+Theorem INT_redirects_in_domain :
+  forall (lower : str -> str) (d : deployment) (q : request) (o : oracles) (an : answers) 
+    (now_ns : Z) (src : str),
+  let resp := serve lower d q o an now_ns in
+  r_loc resp = LVerbatim src \/ (exists s : F.session, r_loc resp = LCode src s) ->
+  G.valid_redirect_uri src (root_domains d) = true /\
+  (forall (sch ui : option str) (h : str) (port : option str) (rest : str),
+   Url.rfc_split src sch ui h port rest -> G.in_domain (Url.rfc_hostname h) (d_proxy_domains d)).
+Proof. exact redirects_in_domain. Qed.
+Print Assumptions INT_redirects_in_domain.
+
+(* ADAPTER (C08): on the four back-channel paths the integration model IS AuthBack.serve (route
+   table, both gates, form-state threading, handlers) read through [of_back] — with the provider
+   interface answers computed from the IdP's HTTP answers by AuthFlow's provider model. *)
+Theorem INT_adapter_back :
+  forall (lower : str -> str) (d : deployment) (o : oracles) (now_ns : Z) (slug : str) 
+    (p : F.pkind) (q : request) (an : answers) (h : B.handler),
+  serve_auth lower d slug p q (rt_path (rt_back h)) o an now_ns =
+  of_back d o now_ns p an (inner q (rt_path (rt_back h)))
+    (B.serve (bcfg d) (benv d p o an (now_ns / ns)) (d_pre d) (inner q (rt_path (rt_back h)))).
+Proof. exact back_adapter_serve. Qed.
+Print Assumptions INT_adapter_back.
+
+(* ADAPTER (C09): the /sign_in route IS AuthFlow.sign_in_route with its four oracle booleans
+   REPLACED by concrete functions of the request (method test, AuthBack's presented_id against the
+   configured id, AuthGates' valid_redirect_uri and valid_signature on the parsed form), read
+   through [of_flow_sign_in]. Two things AuthFlow leaves out appear explicitly: the 500 of the first
+   gate on an unparsable form (bare mux), and the 500 when the redirect's own query does not parse. *)
+Theorem INT_adapter_sign_in :
+  forall (lower : str -> str) (d : deployment) (o : oracles) (now_ns : Z) (slug : str) 
+    (p : F.pkind) (q : request) (an : answers) (r : B.request),
+  serve_route lower d slug p q o an now_ns rt_sign_in r (B.init_state (d_pre d) r) =
+  (if method_ok [B.m_get] r && init_err d r
+   then gate_err r 500
+   else
+    of_flow_sign_in r (o_query_ok o (redirect_value r)) (redirect_value r)
+      (if gates_all d o now_ns r then Some HSignIn else None)
+      (F.sign_in_route lower (fcfg d) p (now_ns / ns) (si_request_of d o now_ns r)
+         (cookie_of d o (lookup slug (q_sess q))) (an_refresh an) (an_validate an))).
+Proof. exact sign_in_adapter. Qed.
+Print Assumptions INT_adapter_sign_in.
+
+Theorem INT_adapter_start :
+  forall (lower : str -> str) (d : deployment) (o : oracles) (now_ns : Z) (slug : str) 
+    (p : F.pkind) (q : request) (an : answers) (r : B.request),
+  serve_route lower d slug p q o an now_ns rt_start r (B.init_state (d_pre d) r) =
+  of_flow_start r (if method_ok [B.m_get] r then Some HStart else None)
+    (F.oauth_start (an_nonce an)
+       (let sr := start_request_of d o now_ns r in
+        {|
+          F.st_get := method_ok [B.m_get] r;
+          F.st_outer_ok := F.st_outer_ok sr;
+          F.st_inner_ok := F.st_inner_ok sr;
+          F.st_sig_ok := F.st_sig_ok sr;
+          F.st_redirect := F.st_redirect sr
+        |})).
+Proof. exact start_adapter. Qed.
+Print Assumptions INT_adapter_start.
+
+(* ADAPTER (C09/C10): /callback IS AuthFlow.oauth_callback with cb_state computed by SignOut's
+   concrete base64 decoder, cb_redirect_ok := AuthGates' valid_redirect_uri, and the redeem reply
+   computed by IdToken.redeem from the IdP's token / userinfo answers. *)
+Theorem INT_adapter_callback :
+  forall (lower : str -> str) (d : deployment) (o : oracles) (now_ns : Z) (slug : str) 
+    (p : F.pkind) (q : request) (an : answers) (r : B.request),
+  serve_route lower d slug p q o an now_ns rt_callback r (B.init_state (d_pre d) r) =
+  (if method_ok [B.m_get] r && init_err d r
+   then err_with r 500 [] [] [] (Some HCallback)
+   else
+    of_flow_callback r (if method_ok [B.m_get] r then Some HCallback else None)
+      (F.oauth_callback lower (fcfg d) (now_ns / ns) (cb_request_full d slug q r)
+         (rd_of p an (B.form_get B.k_code (the_form r))))).
+Proof. exact callback_adapter. Qed.
+Print Assumptions INT_adapter_callback.
+
+(* ADAPTER (C07): AuthGates' route view, with its request record COMPUTED from the concrete request
+   (gview, gview_start, gview_cb), sends the browser where the integration model sends it: same code redirect (same
+   source URI), same verbatim redirect, same IdP redirect (same carried URI), and the same status
+   whenever a gate refuses. So every C07 theorem about AuthGates.serve speaks about this model. *)
+Theorem INT_adapter_gates_sign_in :
+  forall (lower : str -> str) (d : deployment) (o : oracles) (now_ns : Z) (slug : str) 
+    (p : F.pkind) (q : request) (an : answers) (r : B.request),
+  loc_agrees
+    (G.serve (gcfg d) now_ns G.EpSignIn (gview d o p an r (gsess_sign_in lower d o now_ns slug p q an)))
+    (serve_route lower d slug p q o an now_ns rt_sign_in r (B.init_state (d_pre d) r)).
+Proof. exact gates_view_sign_in. Qed.
+Print Assumptions INT_adapter_gates_sign_in.
+
+Theorem INT_adapter_gates_sign_out :
+  forall (lower : str -> str) (d : deployment) (o : oracles) (now_ns : Z) (slug : str) 
+    (p : F.pkind) (q : request) (an : answers) (r : B.request),
+  loc_agrees (G.serve (gcfg d) now_ns G.EpSignOut (gview d o p an r (gsess_sign_out d o slug q)))
+    (serve_route lower d slug p q o an now_ns rt_sign_out r (B.init_state (d_pre d) r)).
+Proof. exact gates_view_sign_out. Qed.
+Print Assumptions INT_adapter_gates_sign_out.
+
+Theorem INT_adapter_gates_start :
+  forall (lower : str -> str) (d : deployment) (o : oracles) (now_ns : Z) (slug : str) 
+    (p : F.pkind) (q : request) (an : answers) (r : B.request),
+  loc_agrees (G.serve (gcfg d) now_ns G.EpStart (gview_start o r))
+    (serve_route lower d slug p q o an now_ns rt_start r (B.init_state (d_pre d) r)).
+Proof. exact gates_view_start. Qed.
+Print Assumptions INT_adapter_gates_start.
+
+Theorem INT_adapter_gates_callback :
+  forall (lower : str -> str) (d : deployment) (o : oracles) (now_ns : Z) (slug : str) 
+    (p : F.pkind) (q : request) (an : answers) (r : B.request),
+  loc_agrees (G.serve (gcfg d) now_ns G.EpCallback (gview_cb lower d slug p q an r))
+    (serve_route lower d slug p q o an now_ns rt_callback r (B.init_state (d_pre d) r)).
+Proof. exact gates_view_callback. Qed.
+Print Assumptions INT_adapter_gates_callback.
+
+(* ADAPTER (C19): behind its gates SignOut.auth_sign_out IS the integrated sign-out handler, for every
+   MAC function and every gate-passing request with the same form values, cookie and IdP answer. *)
+Theorem INT_adapter_signout_C19 :
+  forall (mac : str -> str -> str) (secret : str) (now' : Z) (d : deployment) (slug : str) 
+    (p : F.pkind) (q : request) (o : oracles) (an : answers) (r : B.request) (parses dom : bool),
+  let qa :=
+    {|
+      S.q_method := smethod (B.rq_method r);
+      S.q_uri := redirect_value r;
+      S.q_sig := sig_value r;
+      S.q_ts := ts_value r;
+      S.q_parses := parses;
+      S.q_in_domain := dom;
+      S.q_cookie := acookie_of (cookie_of d o (lookup slug (q_sess q)));
+      S.q_idp := an_revoke an
+    |} in
+  SP.gates_pass mac secret now' qa = true ->
+  smethod (B.rq_method r) <> S.MOther ->
+  S.auth_sign_out mac secret (sprov p) now' qa = aresp_of (h_sign_out d slug p q o an r (Some (the_form r))).
+Proof. exact signout_handler_is_C19. Qed.
+Print Assumptions INT_adapter_signout_C19.
+
+(* the hypotheses are satisfiable: a signed fresh in-domain /sign_in request with a live cookie
+   gets a code, the back channel redeems that code, a valid POST /sign_out revokes and clears,
+   another Host gets 421 *)
+Theorem INT_nonvacuous :
+  (let r := serve lower_ascii Ex.d Ex.q_sign_in Ex.o Ex.an (1100 * ns)%Z in
+   r_status r = 302 /\ r_loc r = LCode Ex.uri (to_flow Ex.sess) /\ r_sess_ops r = [F.OpSet (to_flow Ex.sess)] /\
+   r_calls r = [CIdp (F.CallValidate [116])]) /\
+  (let r := serve lower_ascii Ex.d Ex.q_redeem Ex.o Ex.an (1200 * ns)%Z in
+   r_status r = 200 /\ r_body r = BJson (session_json Ex.sess 1200)) /\
+  (let r := serve lower_ascii Ex.d Ex.q_sign_out Ex.o Ex.an (1100 * ns)%Z in
+   r_status r = 302 /\ r_loc r = LVerbatim Ex.uri /\ r_sess_ops r = [F.OpClear] /\ r_calls r = [CRevoke [116]]) /\
+  (let r := serve lower_ascii Ex.d Ex.q_other_host Ex.o Ex.an (1100 * ns)%Z in
+   r_status r = 421 /\ r_secured r = false /\ r_loc r = LNone) /\
+  routed Ex.d Ex.q_sign_in [103] F.Google p_sign_in.
+Proof. exact nonvacuous. Qed.
+Print Assumptions INT_nonvacuous.
